@@ -19,8 +19,10 @@ import (
 // on both sides), so that a missing edge can never be the reason for a report:
 // the detector may miss races, it does not invent them. Two accesses race when
 // they touch the same slot (or the same map), at least one writes, they come
-// from different goroutines and neither happens before the other. Accesses
-// made through sync/atomic are synchronisation, not data accesses.
+// from different goroutines and neither happens before the other. An access
+// made through sync/atomic is synchronisation as well as an access: it
+// conflicts with an unordered plain access to the same word, never with
+// another atomic access.
 
 type vclock []int
 
@@ -47,10 +49,11 @@ func (v *vclock) join(o vclock) {
 }
 
 type raceAccess struct {
-	gid int
-	clk int
-	fn  *ssa.Function
-	pos token.Pos
+	gid    int
+	clk    int
+	fn     *ssa.Function
+	pos    token.Pos
+	atomic bool // made through sync/atomic: conflicts only with plain accesses
 }
 
 type slotShadow struct {
@@ -67,6 +70,7 @@ type raceState struct {
 	syncs   map[any]*vclock
 	maps    map[*MapV]*slotShadow
 	skip    int // >0: accesses are part of a synchronisation primitive
+	atomicAccess bool // the access being recorded is made through sync/atomic
 	seen    map[string]bool
 	harness map[*ssa.Function]bool
 	epoch   int
@@ -217,13 +221,13 @@ func (it *Interp) raceCheck(sh *slotShadow, what func() string, write bool) {
 		it.race.maxGoroutines = len(it.gs)
 	}
 	fn, pos := it.raceSite()
-	me := raceAccess{gid: g.id, clk: g.vc.get(g.id), fn: fn, pos: pos}
-	if sh.w.gid != 0 && sh.w.gid != g.id && sh.w.clk > g.vc.get(sh.w.gid) {
+	me := raceAccess{gid: g.id, clk: g.vc.get(g.id), fn: fn, pos: pos, atomic: it.race.atomicAccess}
+	if sh.w.gid != 0 && sh.w.gid != g.id && sh.w.clk > g.vc.get(sh.w.gid) && !(sh.w.atomic && me.atomic) {
 		it.raceReport(what(), sh.w, true, me, write)
 	}
 	if write {
 		for _, r := range sh.r {
-			if r.gid != g.id && r.clk > g.vc.get(r.gid) {
+			if r.gid != g.id && r.clk > g.vc.get(r.gid) && !(r.atomic && me.atomic) {
 				it.raceReport(what(), r, false, me, true)
 			}
 		}
@@ -281,12 +285,24 @@ func wrapSyncIntrinsics() {
 			continue
 		}
 		inner := f
+		isAtomic := !strings.HasPrefix(name, "(*sync.Map).")
+		isLoad := strings.Contains(name, "Load")
 		intrinsics[name] = func(it *Interp, a []Value) Value {
 			if it.race == nil {
 				return inner(it, a)
 			}
 			if p, ok := a[0].(PtrV); ok && p.Obj != nil {
-				it.raceSync(syncKey{p.Obj, p.Off})
+				key := syncKey{p.Obj, p.Off}
+				it.raceAcquire(key)
+				if isAtomic && it.race.skip == 0 {
+					// the word itself is accessed atomically: that conflicts with an
+					// unordered *plain* access by another goroutine, not with other
+					// atomic accesses
+					it.race.atomicAccess = true
+					it.raceMem(p.Obj, p.Off, 1, !isLoad)
+					it.race.atomicAccess = false
+				}
+				it.raceRelease(key)
 			}
 			it.race.skip++
 			defer func() { it.race.skip-- }()
